@@ -15,6 +15,7 @@ There is no bound anywhere: the obligations are inductions over the length of th
 -/
 import Sqfs.Proofs.Pool
 import Sqfs.Proofs.C09PoolX
+import Sqfs.Proofs.C09PoolFine
 namespace Sqfs.C09
 open Sqfs.Pool List
 
@@ -787,6 +788,168 @@ theorem x_no_deadlock_flag {cfg : Cfg} {n : Nat} {xs : XState} (hrep : cfg.repai
     have := no_deadlock_flag hrep hn (x_projects hr)
     simpa [xisDeadlock, xmainInCall, xmainContEnabled, hsp, isDeadlock] using this
 
+/-! ### the granularity of the base model is sound: lock/unlock granularity refines it -/
+
+/-- **Refinement.**  Every execution of the model at lock/unlock granularity (`Model/C09PoolFine.lean`: every step that
+passes through the mutex split into lock granted / critical section / lock-free tail, with lock-free segments of other
+threads interleaved anywhere, the tails' effects happening late) reaches only states whose abstraction `fabs` —
+complete the main thread's pending tail, read a worker that has unlocked as being where its tail takes it — is reachable
+in the base model.  So each base-model step is atomic *in effect*: nothing a thread does between its unlock and its next
+blocking point can be observed by, or depends on, what other threads do meanwhile. -/
+theorem fine_refines_coarse {cfg : Cfg} {n : Nat} {fs : FState} (hr : FReachable cfg n fs) :
+    Reachable cfg n (fabs fs) := freachable_abs hr
+
+/-- literal schedules at fine granularity -/
+theorem frun_reachable (cfg : Cfg) (n : Nat) (cs : List Choice) : FReachable cfg n (frun cfg (finit n) cs) := by
+  suffices h : ∀ fs, FReachable cfg n fs → FReachable cfg n (frun cfg fs cs) from h _ .init
+  induction cs with
+  | nil => intro fs hfs; exact hfs
+  | cons c cs ih =>
+    intro fs hfs
+    unfold frun
+    split
+    · rename_i fs' hstep
+      exact ih fs' (.step c hfs hstep)
+    · exact ih fs hfs
+
+/-- **Mutual exclusion** at fine granularity: while the main thread holds the mutex no worker does, and two workers
+never hold it together. -/
+theorem fine_mutex {cfg : Cfg} {n : Nat} {fs : FState} (hr : FReachable cfg n fs) :
+    (fs.fm.isLocked = true → ∀ (j : Nat) (w : FW), fs.fw[j]? = some w → w.isLocked = false) :=
+  mx_reachable hr
+
+/-- **Safety at fine granularity**, on the fine state's own history: FIFO, and no ticket's callback runs twice. -/
+theorem fine_safety {cfg : Cfg} {n : Nat} {fs : FState} (hr : FReachable cfg n fs) :
+    fs.returned <+: fs.submitted ∧ (fs.started.map (·.2.ticket)).Nodup := by
+  have hR := fine_refines_coarse hr
+  have h1 := fifo hR
+  have h2 := (at_most_once hR).1
+  have hsub : (fabs fs).submitted = fs.submitted := by
+    unfold fabs applyTail; split <;> rfl
+  have hst : (fabs fs).started = fs.started := by
+    unfold fabs applyTail; split <;> rfl
+  have hret : fs.returned <+: (fabs fs).returned := by
+    unfold fabs applyTail
+    split <;> first | exact prefix_append _ _ | exact prefix_rfl
+  rw [hsub] at h1
+  rw [hst] at h2
+  exact ⟨hret.trans h1, h2⟩
+
+/-- **No dead-lock at fine granularity** (repaired `dequeue`, at least one worker, no spurious wake-ups needed): whenever the
+main thread is inside an API call — at a blocking point, holding the mutex, or in a lock-free tail — some thread can take a
+step that is not a new API call. -/
+theorem fine_no_deadlock {cfg : Cfg} {n : Nat} {fs : FState} (hrep : cfg.repaired = true) (hn : 0 < n)
+    (hr : FReachable cfg n fs) (hcall : fmainInCall fs = true) :
+    ∃ c fs', c.strict = true ∧ (∀ op, c ≠ .main (.call op)) ∧ fstep cfg fs c = some fs' := by
+  have mk : ∀ c : Choice, c.strict = true → (∀ op, c ≠ .main (.call op)) → (fstep cfg fs c).isSome = true →
+      ∃ c fs', c.strict = true ∧ (∀ op, c ≠ .main (.call op)) ∧ fstep cfg fs c = some fs' := by
+    intro c h1 h2 h3
+    obtain ⟨fs', h⟩ := Option.isSome_iff_exists.1 h3
+    exact ⟨c, fs', h1, h2, h⟩
+  have mainC : ∀ op, Choice.main (.cont false) ≠ .main (.call op) := by intro op; simp
+  cases hfm : fs.fm with
+  | locked l =>
+    cases l <;> exact mk (.main (.cont false)) rfl mainC (by simp [fstep, fstepMain, hfm])
+  | unlocked t =>
+    exact mk (.main (.cont false)) rfl mainC (by simp [fstep, fstepMain, hfm])
+  | «at» pc =>
+    by_cases hall : ∀ (j : Nat) (w : FW), fs.fw[j]? = some w → ∃ pc', w = .at pc'
+    · -- every thread is at a blocking point of the base model: the mutex is free, use the base model's theorem
+      have hfree : mutexFree fs = true := by
+        simp only [mutexFree, hfm, FM.isLocked, Bool.not_false, Bool.true_and, List.all_eq_true]
+        intro w hw
+        obtain ⟨j, hj⟩ := List.getElem?_of_mem hw
+        obtain ⟨pc', hpc⟩ := hall j w hj
+        subst hpc; rfl
+      have hab : fabs fs = fbase fs := fabs_of_at fs pc hfm
+      have hR : Reachable cfg n (fbase fs) := by rw [← hab]; exact freachable_abs hr
+      have hmain : (fbase fs).main = pc := by simp [fbase, hfm, absM]
+      have hic : mainInCall (fbase fs) = true := by
+        unfold fmainInCall at hcall
+        rw [hfm] at hcall
+        unfold mainInCall
+        rw [hmain]
+        cases pc <;> simp_all
+      obtain ⟨c, s', hc, hs⟩ := no_deadlock hrep hn hR hic
+      unfold stepStrict at hs
+      split at hs
+      · rename_i hstrict
+        cases c with
+        | main mc =>
+          cases mc with
+          | call op => exact absurd rfl (hc op)
+          | cont spur =>
+            have hsp : spur = false := by cases spur <;> simp_all [Choice.strict]
+            subst hsp
+            simp only [step] at hs
+            unfold stepMain at hs
+            rw [hmain] at hs
+            cases pc with
+            | idle => simp at hs
+            | finished => simp at hs
+            | submitLock d => exact mk (.main (.cont false)) rfl mainC (by simp [fstep, fstepMain, hfm, hfree])
+            | deqLock => exact mk (.main (.cont false)) rfl mainC (by simp [fstep, fstepMain, hfm, hfree])
+            | statusLock => exact mk (.main (.cont false)) rfl mainC (by simp [fstep, fstepMain, hfm, hfree])
+            | destroyLock => exact mk (.main (.cont false)) rfl mainC (by simp [fstep, fstepMain, hfm, hfree])
+            | deqWait sig =>
+              cases sig with
+              | true => exact mk (.main (.cont false)) rfl mainC (by simp [fstep, fstepMain, hfm, hfree])
+              | false => simp at hs
+            | join i =>
+              simp only at hs
+              split at hs
+              · rename_i hex
+                have hfi : fs.fw[i]? = some (.at .exited) := by
+                  rw [fbase_workers_get] at hex
+                  cases hw : fs.fw[i]? with
+                  | none => rw [hw] at hex; simp at hex
+                  | some w =>
+                    obtain ⟨pc', hpc⟩ := hall i w hw
+                    subst hpc
+                    rw [hw] at hex
+                    simp only [Option.map_some, absW, Option.some.injEq] at hex
+                    rw [hex]
+                by_cases hlt : i + 1 < fs.fw.length
+                · exact mk (.main (.cont false)) rfl mainC (by simp [fstep, fstepMain, hfm, hfi, hlt])
+                · exact mk (.main (.cont false)) rfl mainC (by simp [fstep, fstepMain, hfm, hfi, hlt])
+              · simp at hs
+        | worker i spur =>
+          have hsp : spur = false := by cases spur <;> simp_all [Choice.strict]
+          subst hsp
+          simp only [step] at hs
+          unfold stepWorker at hs
+          rw [fbase_workers_get] at hs
+          cases hw : fs.fw[i]? with
+          | none => rw [hw] at hs; simp at hs
+          | some w =>
+            obtain ⟨pc', hpc⟩ := hall i w hw
+            subst hpc
+            rw [hw] at hs
+            simp only [Option.map_some, absW] at hs
+            cases pc' with
+            | start => exact mk (.worker i false) rfl (by intro op; simp) (by simp [fstep, fstepWorker, hw, hfree])
+            | waitQ sig =>
+              cases sig with
+              | true => exact mk (.worker i false) rfl (by intro op; simp) (by simp [fstep, fstepWorker, hw, hfree])
+              | false => simp at hs
+            | working it => exact mk (.worker i false) rfl (by intro op; simp) (by simp [fstep, fstepWorker, hw])
+            | finishing it rc => exact mk (.worker i false) rfl (by intro op; simp) (by simp [fstep, fstepWorker, hw, hfree])
+            | exited => simp at hs
+      · simp at hs
+    · -- some worker is past a lock acquisition or an unlock: it can go on
+      have : ∃ (j : Nat) (w : FW), fs.fw[j]? = some w ∧ ∀ pc', w ≠ .at pc' := by
+        apply Classical.byContradiction
+        intro hne
+        apply hall
+        intro j w hj
+        apply Classical.byContradiction
+        intro hnp
+        exact hne ⟨j, w, hj, fun pc' he => hnp ⟨pc', he⟩⟩
+      obtain ⟨j, w, hj, hw⟩ := this
+      obtain ⟨fs', h⟩ := fw_phase_steps cfg fs j w hj hw
+      exact ⟨.worker j false, fs', rfl, by intro op; simp, by simp only [fstep]; exact h⟩
+
+
 /-! ### non-vacuity -/
 
 /-- a concrete execution (2 workers, items 7 and 9, worker 1 overtakes worker 0) that reaches a state where
@@ -856,5 +1019,19 @@ example :
     let cfg : Cfg := ⟨true, fun _ => 0⟩
     let xs := xrun cfg (xinit 1) [.submitOom 4]
     xs.base = init 1 ∧ xs.log = [.oom 4] := by decide
+
+/-- a fine execution in which main's `destroy` tail is still pending while a worker, woken by the broadcast, already
+re-checks the status: 1 worker; `destroy` call, lock granted, critical section (status −1, broadcast, unlock); then the
+worker wakes, takes the lock and leaves its loop *before* the main thread has run the tail that brings it to
+`pthread_join` — the hypotheses of `fine_refines_coarse` cover schedules the base model's granularity cannot express -/
+example :
+    let cfg : Cfg := ⟨true, fun _ => 0⟩
+    let fs := frun cfg (finit 1)
+      [.worker 0 false, .worker 0 false,                                  -- lock granted, queue empty: cond_wait
+       .main (.call .destroy), .main (.cont false), .main (.cont false),  -- call, lock granted, critical section
+       .worker 0 false, .worker 0 false]                                  -- woken: lock granted, critical section
+    fs.fm = .unlocked .destroy ∧ fs.fw = [.unlocked none] ∧ fs.status = -1 ∧
+    (fabs fs).main = .join 0 ∧ (fabs fs).workers = [.exited] := by decide
+
 
 end Sqfs.C09
